@@ -1,5 +1,5 @@
 SPECIFICATION Spec
-CONSTANT Seeds = {7, 11}
+CONSTANT Seeds = {0, 11}
 CONSTANT GenIds = {"g1", "g2", "g3"}
 CONSTANT GenSeed <- MCGenSeed
 CONSTANT EPs <- AllEPs
